@@ -10,6 +10,7 @@ import (
 	"reflect"
 	"runtime"
 	"strings"
+	"sync"
 	"testing"
 	"testing/synctest"
 	"time"
@@ -48,6 +49,8 @@ var programs = []program{
 	{"random-readfunc-close", true, []string{"readfunc", "close"}},
 	{"new-reader-close-close", false, []string{"reader", "close", "close"}},
 	{"new-read-read-close", false, []string{"read", "readfunc", "close"}},
+	// a reader is inside its callback, a Close is already waiting for it, then the reader leaves
+	{"new-reader-with-pending-close", false, []string{"pendingclose"}},
 }
 
 type runResult struct {
@@ -227,6 +230,49 @@ func runProgramInner(impl string, p program, faults []int, randFault bool) (res 
 			buf := make([]byte, 16)
 			_, serr = s.NewReader().Read(buf)
 			ran = true
+		case "pendingclose":
+			inCb := make(chan struct{})
+			proceed := make(chan struct{})
+			var rerr, cerr error
+			var wg sync.WaitGroup
+			wg.Add(2)
+			readerDone := make(chan struct{})
+			go func() {
+				defer wg.Done()
+				defer close(readerDone)
+				rerr = s.WithBytes(func(b []byte) error { close(inCb); <-proceed; return check(b) })
+			}()
+			select {
+			case <-inCb:
+			case <-readerDone: // the access itself failed (faulted protect): the callback never ran
+			}
+			go func() {
+				defer wg.Done()
+				cerr = s.Close()
+			}()
+			synctest.Wait() // the closer is now waiting for the reader (or has wrongly finished)
+			close(proceed)
+			wg.Wait() // a Close that is never woken up is a deadlock reported by the bubble
+			if rerr != nil && strings.Contains(rerr.Error(), "different bytes") {
+				add("c12-reader-saw-other-bytes", "reader with a pending Close: %v", rerr)
+			}
+			if cerr != nil {
+				clear()
+				if r2 := s.Close(); r2 != nil {
+					add("c12-close-not-retriable", "pending Close failed (%v) and the retry failed too: %v", cerr, r2)
+				}
+			} else if rerr != nil {
+				// the reader's release failed; Close reported success: the secret must really be gone
+				clear()
+			}
+			if !s.IsClosed() {
+				clear()
+				if r2 := s.Close(); r2 != nil || !s.IsClosed() {
+					add("c12-secret-not-closed", "after reader (err=%v) and pending Close (err=%v) the secret is still open and a further Close returns %v", rerr, cerr, r2)
+				}
+			}
+			closed = true
+			continue
 		case "close":
 			serr = s.Close()
 			if serr != nil {
